@@ -2,5 +2,5 @@
 # usage: r5.sh Cxx [tag]  -- import the three mutants of /tmp/mut/R5Cxx and evaluate them against their property's check
 p=$1; tag=${2:-r5}
 cd /verif
-for x in a b c; do TAG=$tag tools/import_mutant.sh /tmp/mut/R5$p $p $x 2>&1 | grep -v "^imported"; done
+for x in a b c; do TAG=$tag tools/import_mutant.sh /tmp/mut/${RP:-R5}$p $p $x 2>&1 | grep -v "^imported"; done
 tools/run_seeded.sh ${p}_${tag}a ${p}_${tag}b ${p}_${tag}c
